@@ -93,7 +93,7 @@ func emptyAlias(fn string, s, t, res []byte, off int, nilOK bool) {
 		return
 	}
 	if res == nil {
-		if !nilOK {
+		if !nilOK && s != nil { // a view of a nil argument is nil
 			aliasHook(fn, s, t, fmt.Sprintf("empty result is nil, want the empty slice s[%d:%d]", off, off))
 		}
 		return
